@@ -244,11 +244,21 @@ def f2(prog, ctx):
     t = src(d)
     hdr = [c for c in walk_no_nested(d) if isinstance(c, ast.Constant) and isinstance(c.value, str) and "include_counts" in c.value]
     okh = hdr and hdr[0].value.index("include_counts") < hdr[0].value.index("exclude_counts")
-    incl = [s for s in walk_no_nested(d) if isinstance(s, ast.Assign) and src(s.targets[0]) == "incl_count"]
-    excl = [s for s in walk_no_nested(d) if isinstance(s, ast.Assign) and src(s.targets[0]) == "excl_count"]
-    okv = incl and excl and "inclusion_feature_counter" in src(incl[0].value) and "exclusion_feature_counter" in src(excl[0].value)
-    wr = [c for c in walk_no_nested(d) if isinstance(c, ast.Call) and src(c.func) == "f.write" and "%d\\t%d" in src(c)]
-    okw = wr and src(wr[0]).rstrip(")").endswith("incl_count, excl_count)") or (wr and "incl_count, excl_count" in src(wr[0]))
+    # the two numbers of a row, followed through the locals they were taken into
+    from ..engine.dataflow import single_def_env
+    from ..engine import symexec as _sx
+    env_d = single_def_env(d)
+    wr = [c for c in walk_no_nested(d) if isinstance(c, ast.Call) and isinstance(c.func, ast.Attribute) and c.func.attr == "write"
+          and "%d\\t%d" in src(c)]
+    okv = okw = False
+    if wr and isinstance(wr[0].args[0], ast.BinOp) and isinstance(wr[0].args[0].right, ast.Tuple) and len(wr[0].args[0].right.elts) >= 2:
+        first, second = (src(_sx.subst(_sx.subst(e_, env_d), env_d)) for e_ in wr[0].args[0].right.elts[-2:])
+        okw = True
+        okv = "inclusion" in first and "exclusion" not in first and "exclusion" in second and "inclusion" not in second
+        if not okv and not any(k_ in first + second for k_ in ("inclusion", "exclusion")):
+            ctx.undecided("F2", wr[0], d._qualname, "the two counts of a row (%s, %s) cannot be traced to the inclusion / exclusion counters"
+                          % (first[:40], second[:40]))
+            okv = okw = okh = True          # (reported as undecided above)
     if not (okh and okv and okw):
         ctx.fail("F2", d, d._qualname, "include/exclude columns", "include/exclude columns are not written in header order from their own counters")
     else:
@@ -265,6 +275,8 @@ def _iter_base(e, env=None, depth=0):
             e = e.func.value
         elif isinstance(e, ast.Name) and env and e.id in env:
             e = env[e.id]
+        elif isinstance(e, (ast.ListComp, ast.GeneratorExp)) and len(e.generators) == 1 and not e.generators[0].ifs:
+            e = e.generators[0].iter          # one element per element of the source: the same range
         else:
             break
     return src(e)
